@@ -28,6 +28,9 @@ MODULES = [
     ("src/query/view/claim.rs", "claim.rs", "verif_kani"),
     ("src/entity/allocator/mod.rs", "alloc.rs", "verif_kani"),
     ("src/archetype/mod.rs", "arch.rs", "verif_kani"),
+    ("src/query/view/par/seal/repeat.rs", "par.rs", "verif_kani"),
+    ("src/entities/mod.rs", "batch.rs", "verif_kani"),
+    ("src/resource/contains/mod.rs", "res.rs", "verif_kani"),
 ]
 
 # (file, regex matching the line of the `fn`, attribute lines to insert directly above it)
@@ -96,7 +99,8 @@ def replay(dst, hid, test_text, timeout=900):
         return None, "no playback test available"
     p = os.path.join(os.path.dirname(dst), "harness", hfile)
     with open(p, "a") as f:
-        f.write("\n" + test_text + "\n")
+        f.write("\n#[cfg(test)]\nmod vx_playback {\n    #[allow(unused_imports)]\n    use super::*;\n"
+                "    #[allow(unused_imports)]\n    use alloc::{vec, vec::Vec};\n" + test_text + "\n}\n")
     cmd = ["cargo", "kani", "playback", "-Z", "concrete-playback", "--features", FEATURES, "--", m.group(1)]
     env = dict(os.environ, CARGO_NET_OFFLINE="true")
     try:
@@ -106,7 +110,9 @@ def replay(dst, hid, test_text, timeout=900):
     out = pr.stdout + pr.stderr
     failed = ("test result: FAILED" in out) or ("panicked at" in out)
     keep = [l for l in out.split("\n") if ("panicked" in l or "test result" in l or "assertion" in l or l.startswith("test "))]
-    return failed, " ".join(cmd) + "\n" + "\n".join(keep[-12:])
+    if not keep:
+        keep = [l for l in out.split("\n") if l.strip()][-15:]
+    return failed, " ".join(cmd) + "\n" + "\n".join(keep[-15:])
 
 
 def cleanup(root):
@@ -143,7 +149,7 @@ def run_kani(dst, filters, jobs=8, timeout=1500, harness_timeout=None, extra=Non
             js = json.load(open(out_json))
         except Exception:
             js = None
-    res = {"cmd": " ".join(cmd), "rc": rc, "wall_s": wall, "harnesses": {}, "raw_tail": out[-4000:], "compile_error": None}
+    res = {"cmd": " ".join(cmd), "rc": rc, "wall_s": wall, "harnesses": {}, "raw_tail": out[-4000:], "raw": out, "compile_error": None}
     if js is None:
         m = re.search(r"error(\[E\d+\])?: .*", out)
         res["compile_error"] = (m.group(0) if m else "no JSON export produced") if rc != -9 else "timeout"
@@ -159,7 +165,15 @@ def run_kani(dst, filters, jobs=8, timeout=1500, harness_timeout=None, extra=Non
             continue
         failed = [c for c in r.get("checks", []) if c.get("status") in ("Failure", "FAILURE", "Failed")]
         undet = [c for c in r.get("checks", []) if c.get("status") in ("Undetermined", "UNDETERMINED")]
-        covers_unsat = [c for c in r.get("checks", []) if c.get("category") == "cover" and c.get("status") not in ("Satisfied", "SATISFIED")]
+        if r.get("status") in ("Success", "SUCCESS"):
+            failed = []  # e.g. #[kani::should_panic]: the expected panic is not a violation
+        covers = [c for c in r.get("checks", []) if c.get("category") == "cover"]
+        must_unreach = [c for c in covers if "MUST-BE-UNREACHABLE" in (c.get("description") or "")]
+        covers_unsat = [c for c in covers if c not in must_unreach and c.get("status") not in ("Satisfied", "SATISFIED")]
+        for c in must_unreach:
+            if c.get("status") in ("Satisfied", "SATISFIED"):
+                c["status"] = "Failure"
+                failed.append(c)
         for c in failed:
             if "placeholder message" in (c.get("description") or ""):
                 loc = c.get("location") or {}
